@@ -47,3 +47,26 @@ Example C01_nonvacuous :
     /\ slot_ok 0x7f0000001ffd /\ slot_ok (g_jit g) /\ disjoint12 0x7f0000001ffd (g_jit g).
 Proof. eexists _, _. split; [vm_compute; reflexivity|]. cbn [g_jit]. unfold slot_ok, disjoint12, W. lia. Qed.
 Print Assumptions C01_nonvacuous.
+
+(* the constants of the model's encoder are those of the current Rust source (gen/SrcConsts.v is regenerated from it on every run) *)
+From Inj Require Import SrcTie.
+From Inj.gen Require Import SrcConsts.
+Theorem C01_source_short_form : forall oc from to off, branch_offset oc from to = Some off ->
+  (-2147483648 <=? off) && (off <=? 2147483647) = true ->
+  branch oc from to = Some (JMP_REL_OPCODE :: le_bytes 4 (off mod 4294967296)).
+Proof. exact src_amd64_short. Qed.
+Print Assumptions C01_source_short_form.
+Theorem C01_source_long_form : forall oc from to off, branch_offset oc from to = Some off ->
+  (-2147483648 <=? off) && (off <=? 2147483647) = false ->
+  branch oc from to = Some (MOV_RAX_OPCODE ++ le_bytes 8 (to mod W) ++ JMP_RAX_OPCODE).
+Proof. exact src_amd64_long. Qed.
+Print Assumptions C01_source_long_form.
+Theorem C01_source_rel_base : forall from to, 0 <= from < W -> 0 <= to < W ->
+  in_isize (signed64 from + AMD64_REL_INSN_LEN) = true -> in_isize (signed64 to - (signed64 from + AMD64_REL_INSN_LEN)) = true ->
+  branch_offset true from to = Some (signed64 to - (signed64 from + AMD64_REL_INSN_LEN)).
+Proof. exact src_amd64_rel_len. Qed.
+Print Assumptions C01_source_rel_base.
+Theorem C01_source_sizes : EXEC_JIT_SIZE = AMD64_EXEC_JIT_SIZE /\ BOOL_JIT_SIZE = AMD64_BOOL_JIT_SIZE /\
+  e_jit_size (enc_amd64 true) (KExec 0) = AMD64_EXEC_JIT_SIZE /\ e_jit_size (enc_amd64 true) (KBool true) = AMD64_BOOL_JIT_SIZE.
+Proof. exact src_amd64_sizes. Qed.
+Print Assumptions C01_source_sizes.
